@@ -720,7 +720,10 @@ def main():
                       'CONNECT/CC carry the default MIU 128 / RW 1 (no setsockopt on connection sockets); no I/RR/RNR traffic (C05)',
                       'a cached resolve() answer stays valid for the link (ServiceDiscovery never re-asks): resolve_exact is about the '
                       'moment the peer processes the request',
-                      'link MIU 248 in both directions, no encryption; raw access points send PDUs with their own source address']
+                      'link MIU 248 in both directions, no encryption; raw access points send PDUs with their own source address',
+                      'the model carries both versions of DataLinkConnection.enqueue for a non connection-mode PDU in state '
+                      'ESTABLISHED (close()+wait / FRMR only); which one the source has is decided by running it (sim.enqueue_blocks); '
+                      'theorems hold for both']
     ck.coq(targets=['Model/Addr.vo'] + PROOF_TARGETS, props='C17')
     mr = ck.model()
     if mr is None:
@@ -740,12 +743,12 @@ def main():
     for ops in corpus():
         for agf in (False, True):
             batch.add(run_history(ck, ops, agf), 'corpus')
-    nrand = 2000 if quick else 30000
+    nrand = 2000 if quick else 20000
     for k in range(nrand):
         agf = bool(k % 2)
         batch.add(run_history(ck, [], agf, Gen(rng, agf, rng.choice([10, 25, 40, 60]))), 'random')
     # long histories aimed at exhaustion: many sockets, mostly bind/close
-    for k in range(40 if quick else 600):
+    for k in range(40 if quick else 400):
         H = History(ck, False)
         try:
             sd = 'A'
